@@ -20,6 +20,13 @@ def l01(smax, mode="functional", timeout=600, tier="both", rawend=False, oom=Fal
 EXT_TYPES = [(0x00, 5), (0x01, 6), (0x02, 6), (0x41, 26), (0x50, 5), (0x51, 7), (0x52, 5), (0x53, 5), (0x54, 7), (0xcc, 14)]
 
 
+def l01long(timeout=900, tier="both"):
+    # length bytes 250..255: 8-bit arithmetic on length + 2 / the checksum length (seeded changes C05a3, C12b3)
+    return dict(name="l01.long", src="hdr/l01.c", defines=["S_MAX=260", "SYM_BYTES=34", "HL_MIN=250", "PLEN_MAX=3"], rename_defs=RN, no_shift_check=True,
+                extra_srcs=HDR_X, unwind=262, units=HDR_UNITS + ["decode_level0_header", "check_l0_checksum"], timeout=timeout, mem_gb=8, tier=tier, stubs=HDR_STUBS,
+                bounds="input of 0..260 bytes, level 0 or 1, length byte 250..255, name length <= 3, first 34 bytes arbitrary and zero filler behind them")
+
+
 def ext(num, dl, mode="functional", leak=False, timeout=300, tier="both"):
     tag = "other" if num is None else "%02x" % num
     return dict(name="ext.%s%s%s" % (tag, ".safe" if mode == "safety" else "", ".leak" if leak else ""), src="hdr/ext.c",
